@@ -546,3 +546,194 @@ def value_ok(v):
   if v[0] == 0: return lit_ok(v[1], True)
   if v[0] == 2: return value_ok(v[1])
   return True
+
+# ---- hand-written cases: witnesses of the findings and corner cases, always run first --------------------------
+def _lf(v):
+  if v is None: return [0]
+  if isinstance(v, bool): return [1, int(v)]
+  if isinstance(v, int): return [2, v]
+  if isinstance(v, str): return [3] + [ord(c) for c in v]
+  if isinstance(v, tuple) and v[0] == 'opq': return [5, v[1], v[2]]
+  if v == 'MISSING': return [4]
+  raise ValueError(v)
+def mk(v, sealed=0, aw=1, partial=0, plain=0, cls=None):
+  """Python value -> literal: dict -> pg.Dict, list -> pg.List, ('obj', cls, {fields}) -> pg.Object; leaves as they are."""
+  if isinstance(v, dict) and '__lit__' in v: return v['__lit__']
+  if isinstance(v, dict): return [1, 0, [sealed, aw, partial], plain, [[enc_key(k), mk(x)] for k, x in v.items()]]
+  if isinstance(v, list): return [1, 1, [sealed, aw, partial], plain, [[[1, i], mk(x)] for i, x in enumerate(v)]]
+  if isinstance(v, tuple) and v and v[0] == 'obj':
+    c = v[1]
+    return [1, 2 + c, [sealed, CLASS_AW[c] if aw == 1 else aw, partial], 0, [[enc_key(k), mk(v[2].get(k))] for k in CLASS_FIELDS[c]]]
+  if isinstance(v, str) and v == 'MISSING': return [0, [4]]
+  return [0, _lf(v)]
+def F(v, **kw):
+  return {'__lit__': mk(v, **kw)}
+NS = [[], [], [], []]
+def sc(sealed=(), aw=(), notify=(), partial=()):
+  ob = lambda x: [] if x is None else [int(x)]
+  return [[ob(x) for x in sealed], [ob(x) for x in aw], [int(x) for x in notify], [ob(x) for x in partial]]
+def P(r, *keys): return [r, [enc_key(k) for k in keys]]
+def V(x): return [0, mk(x)]
+def R(r, *keys): return [1, r, [enc_key(k) for k in keys]]
+def INS(v): return [2, v]
+def case(init, *steps): return [[], [mk(x) for x in init], [list(s) for s in steps]]
+
+CORPUS = {
+  'iadd-children-without-parent': case([[1]], (NS, [LIADD, P(0), [V({'a': 1})]])),
+  'iadd-on-sealed-list': case([F([1], sealed=1)], (NS, [LIADD, P(0), [V(2)]])),
+  'imul-on-sealed-list': case([F([1, {'a': 1}], sealed=1)], (NS, [LIMUL, P(0), 2]), (sc(sealed=[True]), [LIMUL, P(0), 0])),
+  'ior-children-without-parent': case([{'a': 1}], (NS, [DIOR, P(0), [[enc_key('b'), V({'c': 1})], [enc_key('l'), V([1])]]])),
+  'ior-on-sealed-dict': case([F({'a': 1}, sealed=1)], (NS, [DIOR, P(0), [[enc_key('a'), V(2)]]])),
+  'reverse-stale-paths': case([[{'a': 1}, {'b': 2}, 3]], (NS, [LREVERSE, P(0)])),
+  'sort-stale-paths': case([[{'a': 1}, {'b': 2}, [3]]], (NS, [LSORT, P(0), [2, 1, 0], 0])),
+  'insert-without-notification': case([[{'a': 1}, {'b': 2}]], (sc(notify=[False]), [LINSERT, P(0), 0, V(5)])),
+  'delete-without-notification': case([[{'a': 1}, {'b': 2}, {'c': 3}]], (sc(notify=[False]), [LDEL, P(0), 0])),
+  'negative-index-without-notification': case([[1, 2]], (sc(notify=[False]), [LSET, P(0), -1, V({'a': 1})]), (sc(notify=[False]), [LINSERT, P(0), -1, V({'b': 1})]),
+                                               (sc(notify=[False]), [LINSERT, P(0), -10, V({'c': 1})])),
+  'list-delitem-not-detached': case([[{'a': 1}]], (NS, [LDEL, P(0), 0])),
+  'list-pop-not-detached': case([[{'a': 1}, [2]]], (NS, [LPOP, P(0), []]), (NS, [LPOP, P(0), [0]])),
+  'list-clear-not-detached': case([[{'a': 1}, [2]]], (NS, [LCLEAR, P(0)])),
+  'list-setitem-stale-path': case([[{'a': {'b': 1}}]], (NS, [LSET, P(0), 0, V(5)])),
+  'list-remove': case([[1, {'a': 1}, True]], (NS, [LREMOVE, P(0), [1, 1]]), (NS, [LREMOVE, P(0), [2, 7]])),
+  'dict-popitem-not-detached': case([{'a': {'b': 1}}], (NS, [DPOPITEM, P(0)])),
+  'dict-clear-not-detached': case([{'a': {'b': 1}, 'c': [1]}], (NS, [DCLEAR, P(0)])),
+  'insert-element-of-the-same-list': case([[{'a': 1}]], (NS, [LINSERT, P(0), 0, R(0, 0)]), (NS, [REBIND, P(0), [[[[1, 0]], INS(R(0, 0))]]])),
+  'own-root-below-itself': case([{'a': {}}], (NS, [DSET, P(0, 'a'), 0, enc_key('b'), R(0)]), (NS, [DSET, P(0), 1, enc_key('x'), R(0)])),
+  'seal-false-on-unsealed-parent': case([{'x': {'y': F({}, sealed=1)}}], (NS, [SEAL, P(0), 0])),
+  'seal-true-on-sealed-parent': case([F({'x': {}}, sealed=1)], (NS, [SEAL, P(0, 'x'), 0]), (NS, [SEAL, P(0), 1])),
+  'list-clone-drops-sealed': case([F([1, {'a': 1}], sealed=1)], (NS, [CLONE, P(0), 0]), (NS, [CLONE, P(0), 1]), (NS, [CLONE, P(0), 2]), (NS, [CLONE, P(0), 3])),
+  'object-clone-drops-accessor-writable': case([('obj', 0, {'x': 1})], (NS, [SETAW, P(0), 1]), (NS, [CLONE, P(0), 0])),
+  'clone-reseals-unsealed-child': case([F({'x': {}}, sealed=1)], (NS, [SEAL, P(0, 'x'), 0]), (NS, [CLONE, P(0), 0]), (NS, [DCOPY, P(0)])),
+  'deep-clone-shared-leaf': case([{'x': ('opq', 1, 0), 'y': ('opq', 1, 0)}], (NS, [CLONE, P(0), 1]), (NS, [CLONE, P(0), 3])),
+  'moved-root-comes-back': case([{'a': 1}, [1]], (NS, [LAPPEND, P(1), R(0)]), (NS, [LPOP, P(1), []]), (NS, [DSET, P(0), 0, enc_key('k'), V(2)])),
+  'rebind-list-batch': case([[0, 1, 2, {'a': 1}]], (NS, [REBIND, P(0), [[[[1, 0]], V('MISSING')], [[[1, 1]], INS(V(9))], [[[1, 3], enc_key('a')], V([1])], [[[1, 7]], V(8)]]])),
+  'rebind-sealed-owner': case([{'a': F({'b': 1}, sealed=1), 'c': 1}], (NS, [REBIND, P(0), [[[enc_key('c')], V(2)], [[enc_key('a'), enc_key('b')], V(3)]]])),
+  'accessor-protected': case([F({'a': 1}, aw=0), F([1], aw=0), ('obj', 0, {'x': 1})],
+                             (NS, [DSET, P(0), 0, enc_key('a'), V(2)]), (NS, [DDEL, P(0), 1, enc_key('a')]), (NS, [LSET, P(1), 0, V(2)]), (NS, [LDEL, P(1), 0]),
+                             (NS, [OSET, P(2), enc_key('x'), V(2)]), (NS, [REBIND, P(0), [[[enc_key('a')], V(3)]]]), (NS, [REBIND, P(2), [[[enc_key('x')], V(3)]]]),
+                             (sc(aw=[True]), [DSET, P(0), 0, enc_key('a'), V(4)]), (sc(aw=[False, None]), [DSET, P(0), 0, enc_key('a'), V(5)]), (NS, [DPOP, P(0), enc_key('a'), []])),
+  'missing-in-list': case([[1, 2, 3]], (sc(notify=[False]), [LSET, P(0), 1, V('MISSING')]), (NS, [CLONE, P(0), 0]), (NS, [LAPPEND, P(0), V(4)])),
+}
+
+# ---- the property run shared by C01 / C07 / C08 ------------------------------------------------------------------
+def describe_diff(case, a, b):
+  from harness.lib import tr as trlib
+  d = dict(case=trlib.to_line(case))
+  if a is None or b is None or not isinstance(b, list) or len(b) != 2:
+    d['difference'] = 'no outcome from %s' % ('the implementation' if a is None else 'the model')
+    return d
+  if a[0] != b[0]:
+    d['difference'] = 'initial forest'
+    return d
+  for n, (x, y) in enumerate(zip(a[1], b[1])):
+    if x != y:
+      op = case[2][n][1]
+      d.update(step=n, op=OP_NAMES.get(op[0], op[0]), differs='result' if x[0] != y[0] else 'snapshot',
+               implementation=trlib.to_line(x[0] if x[0] != y[0] else x[1])[:1500], model=trlib.to_line(y[0] if x[0] != y[0] else y[1])[:1500])
+      return d
+  return d
+
+def py_snippet(case, upto=None):
+  """The case as a runnable Python snippet (for replay files)."""
+  from harness.lib import tr as trlib
+  return ('import sys; sys.path[:0] = ["/verif", "/repo"]\nfrom harness.props import symcore_driver as D\nfrom harness.lib import tr\n'
+          'case = tr.parse_line(%r)\nD.run_case(case, after_step=lambda impl, n, scope, op, res, info, before: print(n, D.OP_NAMES[op[0]], res, [repr(r)[:80] for r in impl.roots]))\n'
+          % trlib.to_line(case))
+
+def quirk_flags():
+  """One flag per open finding of the SymCore properties, set by replaying the finding's witness on the implementation
+  (so the model follows the code whether or not the defect has been repaired since)."""
+  from harness.props import c07
+  orc = c07.Oracle()
+  run_case(CORPUS['missing-in-list'], after_step=orc)
+  copy_drops_missing = any(sig == 'C07/not-equal/copy/list-holds-MISSING' for sig, _, _ in orc.hits)
+  return [int(copy_drops_missing)]
+
+def run_property(ctx, prop, oracle_cls, extra=None, focus=None, quick=700, thorough=40000):
+  from harness.lib import tr as trlib
+  from harness.props import symcore_gen as G
+  import time
+  ctx.build()
+  t0 = time.time()
+  rng = ctx.rng
+  quirks = quirk_flags()
+  ctx.extra['quirk_flags'] = dict(copy_drops_missing=quirks[0])
+  cases, kinds = [], []
+  for name, c in CORPUS.items():
+    cases.append([quirks, c[1], c[2]]); kinds.append('corpus:' + name)
+  n = ctx.scale(quick, thorough)
+  gens = [(G.Gen(rng, cycles=True, quirks=quirks), 'random', 0.55), (G.Gen(rng, cycles=True, focus=focus, quirks=quirks) if focus else None, 'focus', 0.2),
+          (G.Gen(rng, cycles=True, focus=MUTATING, quirks=quirks), 'mutators', 0.25)]
+  gens = [g for g in gens if g[0] is not None]
+  tot = sum(w for _, _, w in gens)
+  for g, kind, w in gens:
+    for _ in range(int(n * w / tot)):
+      cases.append(g.case(rng.choice([4, 8, 10, 12]))); kinds.append(kind)
+  impl_outs = []
+  stats = {}
+  for case, kind in zip(cases, kinds):
+    orc = oracle_cls()
+    try:
+      out = run_case(case, after_step=orc)
+    except Exception as e:       # the driver itself failed: fail closed
+      out = None
+      ctx.broken.append(dict(kind='driver-crash', name=type(e).__name__, detail=repr(e)[:300] + ' on ' + trlib.to_line(case)[:600]))
+    impl_outs.append(out)
+    for sig, what, step in orc.hits:
+      ctx.hit(sig, what, dict(case=trlib.to_line(case), step=step, snippet=py_snippet(case)))
+    for k, v in getattr(orc, 'stats', {}).items():
+      stats[k] = stats.get(k, 0) + v
+    nontrivial = False
+    if out is not None:
+      nested = lambda snap: any(any(i[1][0] == 1 for i in r[0][4]) for r in snap if r)
+      for (sc_, op), (res, snap) in zip(case[2], out[1]):
+        ctx.hist('operations', OP_NAMES.get(op[0], op[0]))
+        ctx.hist('outcomes', 'ok' if res[0] == 0 else {1: 'WritePermissionError', 2: 'KeyError', 3: 'IndexError', 4: 'TypeError', 5: 'ValueError',
+                                                        6: 'AssertionError', 7: 'AttributeError', 9: 'other', 97: 'hang', 99: 'not-applicable'}.get(res[1], res[1]))
+        ctx.hist('scopes', 'none' if not any(sc_) else 'scoped')
+        if res[0] == 0 and op[0] in MUTATING and nested(snap):
+          nontrivial = True
+      ctx.hist('steps_per_case', len(case[2]))
+      ctx.hist('roots_at_end', len(out[1][-1][1]) if out[1] else len(out[0]))
+    ctx.count(trlib.to_line(case), nontrivial=nontrivial, kind=kind.split(':')[0],
+              sample=dict(kind=kind, case=trlib.to_line(case)[:700]) if (nontrivial and kind == 'random' and len(ctx.samples) < 4) or len(ctx.samples) < 1 else None)
+  ctx.log('implementation ran %d cases in %.1fs' % (len(cases), time.time() - t0))
+  model_outs = ctx.model_run(cases)
+  diffs = {}
+  for c, a, b in zip(cases, impl_outs, model_outs):
+    if a != b:
+      diffs[id(c)] = describe_diff(c, a, b)
+  bad = ctx.compare('SymCore.run vs pg.Dict / pg.List / pg.Object (outcome and snapshot of every root after every step)',
+                    cases, impl_outs, model_outs, describe=lambda c: diffs.get(id(c)))
+  ctx.extra['oracle_stats'] = stats
+  ctx.extra['corpus_cases'] = len(CORPUS)
+  if extra:
+    extra(ctx)
+  # violation search when something is broken and the oracle has not hit yet: more histories biased to the op kinds that disagree
+  if ctx.is_broken() and not ctx.hits:
+    ops = set()
+    for i in bad[:50]:
+      d = diffs.get(id(cases[i])) or {}
+      ops |= {t for t, nm in OP_NAMES.items() if nm == d.get('op')}
+    g = G.Gen(rng, cycles=True, focus=ops or MUTATING, quirks=quirks)
+    for _ in range(ctx.scale(600, 6000)):
+      case = g.case(8)
+      orc = oracle_cls()
+      try:
+        run_case(case, after_step=orc)
+      except Exception:     # pylint: disable=broad-except
+        continue
+      for sig, what, step in orc.hits:
+        ctx.hit(sig, what, dict(case=trlib.to_line(case), step=step, snippet=py_snippet(case)))
+      if ctx.hits:
+        break
+
+def replay_property(ctx, rp, oracle_cls):
+  from harness.lib import tr as trlib
+  c = rp['case']
+  case = trlib.parse_line(c['case']) if isinstance(c, dict) else trlib.parse_line(c)
+  orc = oracle_cls()
+  run_case(case, after_step=orc)
+  for h in orc.hits:
+    print('  still fails:', h[0], '|', h[1])
+  return not orc.hits
